@@ -250,6 +250,27 @@ Proof.
   now apply state_validate_contents_total.
 Qed.
 
+(* the two Deserialize calls with the decoders of Model/WireState.v never panic (C14: Proofs/WireState.v, Proofs/Ztyp.v) *)
+Lemma state_dec_item_total t body content : state_dec_item t body content <> Panic.
+Proof.
+  unfold state_dec_item.
+  destruct (t =? T_AccountTrieNode).
+  { apply bind_no_panic; [apply AccountTrieNodeKey_codec_total|]. intros [path nh] _.
+    apply bind_no_panic; [apply AccountTrieNodeWithProof_codec_total|]. intros [proof bh] _. discriminate. }
+  destruct (t =? T_ContractStorageTrieNode).
+  { apply bind_no_panic; [apply StorageTrieNodeKey_codec_total|]. intros [[addr path] nh] _.
+    apply bind_no_panic; [apply StorageTrieNodeWithProof_codec_total|]. intros [[sp ap] bh] _. discriminate. }
+  apply bind_no_panic; [apply dec_BytecodeKey_total|]. intros [addr ch] _.
+  apply bind_no_panic; [apply BytecodeWithProof_codec_total|]. intros [[code ap] bh] _. discriminate.
+Qed.
+
+(* hence, with the concrete decoders, only the hypotheses of C13_total remain *)
+Lemma slib_concrete_ok node_hash decode decode_account header cid :
+  (forall b n, decode b = Ok n -> wf_node n = true) ->
+  (forall b, decode b <> Panic) -> (forall b, decode_account b <> Panic) -> (forall i b, header i b <> Panic) ->
+  slib_ok (slib_concrete node_hash decode decode_account header cid).
+Proof. intros H1 H2 H3 H4. repeat split; cbn; auto. intros t b c. apply state_dec_item_total. Qed.
+
 (* C13_history_store through the composition: whatever is under a content id afterwards was there before, or is the final
    node / the code of a pair whose decoded form satisfied the chain predicate of C13 against the header answer of its step *)
 Definition state_bound (L : slib) (s0 s : StateTrie.store) : Prop :=
